@@ -1389,3 +1389,123 @@ Proof.
     specialize (IH r1 r' (eq_trans Pv Hpv) (Q2 r1 H1) H). destruct IH as [C D].
     split; congruence.
 Qed.
+
+(* ------------------------------------------------------------------ *)
+(* Part 4: the receiver of a (pre-)vote request *)
+
+Lemma send_vote_resp r m r' :
+  m_from m = INVALID_ID ->
+  (m_type m = MsgRequestVoteResponse \/ m_type m = MsgRequestPreVoteResponse) ->
+  send r m = Ok r' ->
+  m_term m <> 0 /\ r' = r <| r_msgs := r_msgs r ++ [m <| m_from := r_id r |>] |>.
+Proof.
+  intros Hf Ht. unfold send. rewrite Hf, N.eqb_refl.
+  change (m_type (m <| m_from := r_id r |>)) with (m_type m).
+  change (m_term (m <| m_from := r_id r |>)) with (m_term m).
+  assert (Hv : is_vote_type (m_type m) = true) by (destruct Ht as [E|E]; rewrite E; reflexivity).
+  rewrite Hv. destruct (m_term m =? 0) eqn:Ez; cbn [bind]; [discriminate|].
+  change (m_type (m <| m_from := r_id r |>)) with (m_type m).
+  assert (Hq : ((m_type m =? MsgRequestVote) || (m_type m =? MsgRequestPreVote)) = false)
+    by (destruct Ht as [E|E]; rewrite E; reflexivity).
+  rewrite Hq. intros H. okinv H. split; [apply N.eqb_neq; exact Ez|reflexivity].
+Qed.
+
+(* the response to a (pre-)vote request [m] *)
+Definition vote_resp (r : raft) (m : msg) (rt : N) (reject : bool) (t : N) (ci : N * N) : msg :=
+  (new_message (m_from m) rt None) <| m_reject := reject |> <| m_term := t |>
+    <| m_commit := fst ci |> <| m_commit_term := snd ci |> <| m_from := r_id r |>.
+
+Definition resp_type (m : msg) : N :=
+  if m_type m =? MsgRequestVote then MsgRequestVoteResponse else MsgRequestPreVoteResponse.
+
+Definition grants (r : raft) (m : msg) : Res bool :=
+  utd <- is_up_to_date (r_log r) (m_index m) (m_log_term m) ;;
+  Ok (((r_vote r =? m_from m)
+       || ((r_vote r =? INVALID_ID) && (r_leader_id r =? INVALID_ID))
+       || ((m_type m =? MsgRequestPreVote) && (r_term r <? m_term m)))
+      && utd
+      && ((last_index (r_log r) <? m_index m) || (r_priority r <=? get_priority m)%Z)).
+
+Definition push (r : raft) (x : msg) : raft := r <| r_msgs := r_msgs r ++ [x] |>.
+
+(* the vote branch of the body, exactly *)
+Lemma step_body_vote r m r' c :
+  (m_type m = MsgRequestVote \/ m_type m = MsgRequestPreVote) ->
+  step_body r m = Ok (r', c) ->
+  c = E_OK /\
+  ((grants r m = Ok true /\ m_term m <> 0 /\
+    r' = if m_type m =? MsgRequestVote
+         then (push r (vote_resp r m (resp_type m) false (m_term m) (0, 0)))
+                <| r_election_elapsed := 0 |> <| r_vote := m_from m |>
+         else push r (vote_resp r m (resp_type m) false (m_term m) (0, 0))) \/
+   (grants r m = Ok false /\ r_term r <> 0 /\
+    exists ci, commit_info (r_log r) = Ok ci /\
+      maybe_commit_by_vote (push r (vote_resp r m (resp_type m) true (r_term r) ci)) m = Ok r')).
+Proof.
+  intros Ht. unfold step_body, grants.
+  assert (Hh : (m_type m =? MsgHup) = false) by (destruct Ht as [E|E]; rewrite E; reflexivity).
+  assert (Hv : ((m_type m =? MsgRequestVote) || (m_type m =? MsgRequestPreVote)) = true)
+    by (destruct Ht as [E|E]; rewrite E; reflexivity).
+  assert (Hrt : vote_resp_msg_type (m_type m) = Ok (resp_type m))
+    by (unfold resp_type; destruct Ht as [E|E]; rewrite E; reflexivity).
+  assert (Hrt' : resp_type m = MsgRequestVoteResponse \/ resp_type m = MsgRequestPreVoteResponse)
+    by (unfold resp_type; destruct Ht as [E|E]; rewrite E; [left|right]; reflexivity).
+  rewrite Hh, Hv. intros H. ib H utd Hu. rewrite Hu. cbn [bind]. rewrite Hrt in H. cbn [bind] in H.
+  dtop H.
+  - ib H r1 H1. apply send_vote_resp in H1; [|reflexivity|exact Hrt'].
+    destruct H1 as [Hz ->]. cbn in Hz.
+    assert (Hc : c = E_OK) by (destruct (m_type m =? MsgRequestVote); okinv H; reflexivity).
+    split; [exact Hc|]. left. split; [reflexivity|]. split; [exact Hz|].
+    destruct (m_type m =? MsgRequestVote); okinv H; reflexivity.
+  - ib H ci Hci. ib H r1 H1. ib H r2 H2. okinv H.
+    apply send_vote_resp in H1; [|reflexivity|exact Hrt'].
+    destruct H1 as [Hz ->]. cbn in Hz. split; [reflexivity|]. right.
+    split; [reflexivity|]. split; [exact Hz|]. exists ci. split; [exact Hci|exact H2].
+Qed.
+
+(* (3) the receiver of a pre-vote request, every state and every message: the four
+   paths, exactly *)
+Theorem prevote_req_receiver r m r' c :
+  m_type m = MsgRequestPreVote -> step r m = Ok (r', c) ->
+  c = E_OK /\
+  ((* inside the lease: dropped *)
+   (r_term r < m_term m /\ lease_drop r m = true /\ r' = r) \/
+   (* lower term: explicit rejection at the receiver's term, nothing else *)
+   (m_term m <> 0 /\ m_term m < r_term r /\
+    r' = push r (vote_resp r m MsgRequestPreVoteResponse true (r_term r) (0, 0))) \/
+   (* granted: one response carrying the request's term, nothing else: no vote is
+      recorded, the election timer is not reset *)
+   ((m_term m = 0 \/ m_term m = r_term r \/ (r_term r < m_term m /\ lease_drop r m = false)) /\
+    grants r m = Ok true /\
+    r' = push r (vote_resp r m MsgRequestPreVoteResponse false (m_term m) (0, 0))) \/
+   (* rejected at the current or a higher term: one response at the receiver's term
+      carrying its commit info, then the commit fast-forward from the request *)
+   ((m_term m = 0 \/ m_term m = r_term r \/ (r_term r < m_term m /\ lease_drop r m = false)) /\
+    grants r m = Ok false /\
+    exists ci, commit_info (r_log r) = Ok ci /\
+      maybe_commit_by_vote (push r (vote_resp r m MsgRequestPreVoteResponse true (r_term r) ci)) m
+      = Ok r')).
+Proof.
+  intros Ht. rewrite step_eq. intros H. ib H pre Hpre. apply step_pre_cases in Hpre.
+  assert (Hex : exempt m = true) by (unfold exempt; rewrite Ht; reflexivity).
+  destruct pre as [[r1 c1]|r1].
+  - okinv H. destruct Hpre as (-> & Hz & [(L & D & ->)|(L & Hl)]); (split; [reflexivity|]).
+    + left. auto.
+    + right. left. split; [exact Hz|]. split; [exact L|].
+      unfold low_term_reply in Hl. rewrite Ht in Hl.
+      change (MsgRequestPreVote =? MsgHeartbeat) with false in Hl.
+      change (MsgRequestPreVote =? MsgAppend) with false in Hl.
+      rewrite andb_false_r in Hl. change (MsgRequestPreVote =? MsgRequestPreVote) with true in Hl.
+      cbv iota in Hl. apply send_vote_resp in Hl; [|reflexivity|right; reflexivity].
+      destruct Hl as [_ ->]. reflexivity.
+  - destruct Hpre as [[-> Hc]|(_ & _ & E & _)]; [|congruence].
+    assert (Hld : m_term m = 0 \/ m_term m = r_term r \/ (r_term r < m_term m /\ lease_drop r m = false)).
+    { destruct Hc as [Z|[Z|(L & D & _)]]; auto. }
+    apply step_body_vote in H; [|right; exact Ht].
+    unfold resp_type in H. rewrite Ht in H.
+    change (MsgRequestPreVote =? MsgRequestVote) with false in H. cbv iota in H.
+    destruct H as [-> [(G & Z & ->)|(G & Z & ci & Hci & Hm)]]; (split; [reflexivity|]).
+    + right. right. left. auto.
+    + right. right. right. split; [assumption|].
+      split; [exact G|]. exists ci. split; assumption.
+Qed.
